@@ -14,12 +14,13 @@ fn n_cases(tier: &str, quick: u64, thorough: u64) -> u64 {
 
 pub struct Clock {
     pub epoch: i64,
+    pub small: bool, // only steps of seconds/minutes, never across a day boundary
 }
 impl Clock {
     pub fn new(r: &mut Rng) -> Self {
         // around calendar edges: end of Feb in a leap year, end of year, plain day
         let bases = [1_709_251_190i64 /* 2024-02-29 23:59:50 */, 1_735_689_590 /* 2024-12-31 23:59:50 */, 1_700_000_000, 1_711_843_195 /* 2024-03-30 23:59:55 */];
-        Clock { epoch: *r.pick(&bases) + r.below(20) as i64 }
+        Clock { epoch: *r.pick(&bases) + r.below(20) as i64, small: false }
     }
     /// mostly stands still or moves by seconds; sometimes jumps over a minute/hour/day boundary
     pub fn tick(&mut self, r: &mut Rng) -> u64 {
@@ -32,6 +33,7 @@ impl Clock {
             18 => 86_400,
             _ => 86_400 * 31,
         };
+        let d = if self.small { d.min(60) } else { d };
         self.epoch += d;
         pack(self.epoch)
     }
@@ -62,8 +64,9 @@ pub struct Gen {
 }
 
 pub fn gen_spec(r: &mut Rng, naming: &str) -> (String, bool) {
-    let basename = *r.pick(&["app", "app", "my_prog", "", "a.b"]);
-    let discr = if basename.is_empty() || r.chance(1, 3) { Some(*r.pick(&["d1", "x_y"])) } else { None };
+    // names that contain the separator-plus-'r' pattern of the infix are part of the mix
+    let basename = *r.pick(&["app", "app", "my_prog", "", "a.b", "my_router", "x_r00001y"]);
+    let discr = if basename.is_empty() || r.chance(1, 3) { Some(*r.pick(&["d1", "x_y", "node_red", "r7"])) } else { None };
     let suffix = *r.pick(&[Some("log"), Some("log"), Some("dat"), None]);
     // a dotted basename without suffix is a known finding (listing reads the dot as an extension)
     let suffix = if basename.contains('.') && suffix.is_none() { Some("log") } else { suffix };
@@ -164,6 +167,7 @@ pub struct Opts {
     pub namings: &'static [&'static str],
     pub foreign: bool,       // near-miss foreign files in the directory (C14)
     pub exist: bool,         // existing_log_files observations (C16)
+    pub bg: bool,            // cleanup in the background thread: observations only after shutdown (C07)
 }
 
 fn cfg_line(rot: &Option<String>, append: bool, cap: Option<u64>, symlink: bool, has_suffix: bool) -> String {
@@ -180,7 +184,9 @@ pub fn gen_hist(o: &Opts, r: &mut Rng, k: u64, tier: &str) -> Vec<String> {
     c.push(spec);
     let n: u64 = *r.pick(&[0, 1, 5, 16, 40, 64]);
     let ages = ['s', 'm', 'h', 'd'];
+    let age_inactive = o.prop == "C08" && r.chance(1, 3);
     let (ms, age) = match (o.size, o.age) {
+        (true, false) if age_inactive => (Some(n), Some('d')),
         (true, false) => (Some(n), None),
         (false, true) => (None, Some(*r.pick(&ages))),
         _ => match r.below(4) {
@@ -214,6 +220,7 @@ pub fn gen_hist(o: &Opts, r: &mut Rng, k: u64, tier: &str) -> Vec<String> {
         c.push(format!("MODE {m}"));
     }
     let symlink = r.chance(1, 4);
+    if o.bg { c.push("BGCLEAN 1".into()); is_async = true; /* no intermediate observations */ }
     let mut append = o.restarts > 0 && r.chance(1, 2);
     c.push(format!("CFG {}", cfg_line(&rot, append, cap, symlink, has_suffix)));
     if o.foreign {
@@ -229,7 +236,11 @@ pub fn gen_hist(o: &Opts, r: &mut Rng, k: u64, tier: &str) -> Vec<String> {
         }
     }
     let mut clock = Clock::new(r);
-    let frozen = is_async;
+    if age_inactive {
+        // the whole history (incl. restarts) stays within one day: 2024-06-15 10:00:00 UTC + small steps
+        clock = Clock { epoch: 1_718_445_600 + r.below(1000) as i64, small: true };
+    }
+    let frozen = is_async && !o.bg;
     let nops = r.range(3, if tier == "thorough" { o.max_ops * 3 } else { o.max_ops });
     let mut seq = 0u64;
     let mut restarts_left = if o.restarts > 0 { r.range(1, o.restarts) } else { 0 };
@@ -250,7 +261,7 @@ pub fn gen_hist(o: &Opts, r: &mut Rng, k: u64, tier: &str) -> Vec<String> {
             c.push("SHUT".into());
             c.push("READ".into());
             // restart in the same second or later
-            if r.chance(1, 2) { clock.epoch += *r.pick(&[1i64, 2, 61, 3601, 86_401]); }
+            if r.chance(1, 2) { clock.epoch += if clock.small { *r.pick(&[1i64, 2, 61]) } else { *r.pick(&[1i64, 2, 61, 3601, 86_401]) }; }
             append = r.chance(1, 2);
             // known findings kept out of the random stream (see known_findings.json):
             //   tsd + append after same-second restart files (base file is re-opened)
@@ -325,16 +336,23 @@ fn gen_with(o: Opts, tier: &str, seed: u64, quick: u64, thorough: u64) -> Vec<Ve
 const ALL: &[&str] = &["num", "numd", "ts", "tsd"];
 
 pub fn gen_c08(tier: &str, seed: u64) -> Vec<Vec<String>> {
-    gen_with(Opts { prop: "C08", size: true, age: false, force_rot: false, restarts: 1, cleanup: false, faults: false, ext: false, modes: true, max_ops: 40, namings: ALL, foreign: false, exist: false }, tier, seed, 500, 8000)
+    gen_with(Opts { prop: "C08", size: true, age: false, force_rot: false, restarts: 1, cleanup: false, faults: false, ext: false, modes: true, max_ops: 40, namings: ALL, foreign: false, exist: false, bg: false }, tier, seed, 500, 8000)
 }
 pub fn gen_c09(tier: &str, seed: u64) -> Vec<Vec<String>> {
-    gen_with(Opts { prop: "C09", size: false, age: true, force_rot: false, restarts: 1, cleanup: false, faults: false, ext: false, modes: false, max_ops: 40, namings: ALL, foreign: false, exist: false }, tier, seed, 500, 8000)
+    gen_with(Opts { prop: "C09", size: false, age: true, force_rot: false, restarts: 1, cleanup: false, faults: false, ext: false, modes: false, max_ops: 40, namings: ALL, foreign: false, exist: false, bg: false }, tier, seed, 500, 8000)
 }
 pub fn gen_c06(tier: &str, seed: u64) -> Vec<Vec<String>> {
-    gen_with(Opts { prop: "C06", size: true, age: true, force_rot: true, restarts: 4, cleanup: false, faults: false, ext: false, modes: false, max_ops: 40, namings: ALL, foreign: false, exist: false }, tier, seed, 500, 6000)
+    gen_with(Opts { prop: "C06", size: true, age: true, force_rot: true, restarts: 4, cleanup: false, faults: false, ext: false, modes: false, max_ops: 40, namings: ALL, foreign: false, exist: false, bg: false }, tier, seed, 500, 6000)
 }
 pub fn gen_c07(tier: &str, seed: u64) -> Vec<Vec<String>> {
-    gen_with(Opts { prop: "C07", size: true, age: true, force_rot: true, restarts: 2, cleanup: true, faults: false, ext: false, modes: false, max_ops: 40, namings: ALL, foreign: false, exist: false }, tier, seed, 500, 6000)
+    let mut v = gen_c07_sync(tier, seed);
+    // the same histories with the cleanup in the background thread: after shutdown() the
+    // directory must be what the synchronous cleanup leaves
+    v.extend(gen_with(Opts { prop: "C07", size: true, age: true, force_rot: false, restarts: 1, cleanup: true, faults: false, ext: false, modes: false, max_ops: 40, namings: ALL, foreign: false, exist: false, bg: true }, tier, seed ^ 0xB6, 150, 3000));
+    v
+}
+fn gen_c07_sync(tier: &str, seed: u64) -> Vec<Vec<String>> {
+    gen_with(Opts { prop: "C07", size: true, age: true, force_rot: true, restarts: 2, cleanup: true, faults: false, ext: false, modes: false, max_ops: 40, namings: ALL, foreign: false, exist: false, bg: false }, tier, seed, 500, 6000)
 }
 /// raw byte chunks through `ArcFileLogWriter: io::Write` under every write mode
 fn gen_c15_chunks(tier: &str, seed: u64) -> Vec<Vec<String>> {
@@ -389,22 +407,22 @@ pub fn gen_c15(tier: &str, seed: u64) -> Vec<Vec<String>> {
 }
 
 fn gen_c15_records(tier: &str, seed: u64) -> Vec<Vec<String>> {
-    gen_with(Opts { prop: "C15", size: true, age: false, force_rot: true, restarts: 0, cleanup: false, faults: false, ext: false, modes: true, max_ops: 40, namings: ALL, foreign: false, exist: false }, tier, seed, 500, 6000)
+    gen_with(Opts { prop: "C15", size: true, age: false, force_rot: true, restarts: 0, cleanup: false, faults: false, ext: false, modes: true, max_ops: 40, namings: ALL, foreign: false, exist: false, bg: false }, tier, seed, 500, 6000)
 }
 pub fn gen_c18(tier: &str, seed: u64) -> Vec<Vec<String>> {
-    gen_with(Opts { prop: "C18", size: true, age: false, force_rot: true, restarts: 0, cleanup: false, faults: false, ext: true, modes: false, max_ops: 40, namings: &["num", "ts"], foreign: false, exist: false }, tier, seed, 500, 6000)
+    gen_with(Opts { prop: "C18", size: true, age: false, force_rot: true, restarts: 0, cleanup: false, faults: false, ext: true, modes: false, max_ops: 40, namings: &["num", "ts"], foreign: false, exist: false, bg: false }, tier, seed, 500, 6000)
 }
 pub fn gen_c19(tier: &str, seed: u64) -> Vec<Vec<String>> {
-    gen_with(Opts { prop: "C19", size: true, age: true, force_rot: true, restarts: 0, cleanup: true, faults: true, ext: false, modes: false, max_ops: 40, namings: ALL, foreign: false, exist: false }, tier, seed, 500, 6000)
+    gen_with(Opts { prop: "C19", size: true, age: true, force_rot: true, restarts: 0, cleanup: true, faults: true, ext: false, modes: false, max_ops: 40, namings: ALL, foreign: false, exist: false, bg: false }, tier, seed, 500, 6000)
 }
 
 pub fn gen_c14(tier: &str, seed: u64) -> Vec<Vec<String>> {
-    let mut v = gen_with(Opts { prop: "C14", size: true, age: true, force_rot: true, restarts: 2, cleanup: true, faults: false, ext: false, modes: false, max_ops: 40, namings: ALL, foreign: true, exist: false }, tier, seed, 400, 5000);
+    let mut v = gen_with(Opts { prop: "C14", size: true, age: true, force_rot: true, restarts: 2, cleanup: true, faults: false, ext: false, modes: false, max_ops: 40, namings: ALL, foreign: true, exist: false, bg: false }, tier, seed, 400, 5000);
     v.extend(crate::props::names::gen_names_cases("C14", tier, seed));
     v
 }
 pub fn gen_c16(tier: &str, seed: u64) -> Vec<Vec<String>> {
-    let mut v = gen_with(Opts { prop: "C16", size: true, age: true, force_rot: true, restarts: 2, cleanup: true, faults: false, ext: false, modes: false, max_ops: 30, namings: ALL, foreign: false, exist: true }, tier, seed, 400, 5000);
+    let mut v = gen_with(Opts { prop: "C16", size: true, age: true, force_rot: true, restarts: 2, cleanup: true, faults: false, ext: false, modes: false, max_ops: 30, namings: ALL, foreign: false, exist: true, bg: false }, tier, seed, 400, 5000);
     v.extend(crate::props::names::gen_names_cases("C16", tier, seed));
     v
 }
@@ -514,7 +532,7 @@ pub fn gen_c11(tier: &str, seed: u64) -> Vec<Vec<String>> {
                     c.push("LINK".into());
                     // a newly started logger on the same directory
                     let append = r.chance(1, 2);
-                    let mut cl2 = Clock { epoch: clock.epoch + *r.pick(&[0i64, 1, 70]) };
+                    let mut cl2 = Clock { epoch: clock.epoch + *r.pick(&[0i64, 1, 70]), small: false };
                     c.push(format!("RESTART {}", cfg_line(&rot, append, None, symlink, has_suffix)));
                     let mut s2 = seq + 1;
                     for _ in 0..r.range(1, 5) {
